@@ -16,13 +16,12 @@ Proof. destruct a, b; simpl; split; congruence. Qed.
 Lemma log_eqb_spec a b : log_eqb a b = true <-> a = b.
 Proof. apply list_eqb_spec, pair_eqb_spec; apply Nat.eqb_eq. Qed.
 
-Lemma obs_eqb_spec a b : obs_eqb a b = true <-> a = b.
+Lemma obs_eqb_spec a b : obs_eqb a b = true <-> alpha a = alpha b.
 Proof.
-  destruct a, b; unfold obs_eqb; simpl. rewrite !andb_true_iff.
-  rewrite (list_eqb_spec ev_eqb ev_eqb_spec), !bool_eqb_spec, (option_eqb_spec cls_eqb cls_eqb_spec),
-    log_eqb_spec, !Nat.eqb_eq.
+  destruct a, b; unfold obs_eqb, alpha; simpl. rewrite !andb_true_iff.
+  rewrite (list_eqb_spec ev_eqb ev_eqb_spec), !bool_eqb_spec, log_eqb_spec, !Nat.eqb_eq.
   split.
-  - intros [[[[[[[-> ->] ->] ->] ->] ->] ->] ->]; reflexivity.
+  - intros [[[[[-> ->] ->] ->] ->] ->]; reflexivity.
   - intro E; injection E; intros; subst; repeat split.
 Qed.
 
@@ -822,4 +821,83 @@ Proof.
   destruct broken_runner_iterations, runner_iterations; try apply incl_refl.
   - lia.
   - intros x Hx. apply filter_In in Hx. tauto.
+Qed.
+
+(* ================= programs that leave no delayed call: the verdict is decided by the input alone ================= *)
+Definition no_leftovers (p : program) : Prop :=
+  s_leave (i_setup p) = [] /\ s_leave (i_body p) = [] /\ s_leave (i_teardown p) = []
+  /\ Forall (fun st => s_leave st = []) (i_cleanups p).
+
+Lemma note_pending c m : m_pending (note_failure c m) = m_pending m.
+Proof. destruct c; reflexivity. Qed.
+
+Lemma run_stage_nopend C k st m :
+  s_leave st = [] -> m_pending m = [] ->
+  match run_stage C k st m with Done _ m' => m_pending m' = [] | Cut m' => m_pending m' = [] end.
+Proof.
+  intros L P. unfold run_stage, start_stage. rewrite L, P.
+  destruct (s_ret st) as [|c|d f|]; simpl; try reflexivity.
+  destruct (Nat.ltb (m_now m + d) C); reflexivity.
+Qed.
+
+Lemma run_cleanups_nopend C : forall cs last m,
+  Forall (fun ks : nat * stage => s_leave (snd ks) = []) cs -> m_pending m = [] ->
+  match run_cleanups C cs last m with CDone _ m' => m_pending m' = [] | CCut m' _ => m_pending m' = [] end.
+Proof.
+  induction cs as [|[k st] r IH]; intros last m F P; [exact P|].
+  inversion F as [|? ? Hst Fr]; subst. cbn [run_cleanups snd] in *.
+  generalize (run_stage_nopend C k st m Hst P).
+  destruct (run_stage C k st m) as [c m1|m1]; intro P1; [apply IH; assumption | exact P1].
+Qed.
+
+Lemma number_from_Forall (P : stage -> Prop) l : forall k,
+  Forall P l -> Forall (fun ks : nat * stage => P (snd ks)) (number_from k l).
+Proof. induction l as [|s r IH]; intros k F; simpl; inversion F; subst; constructor; auto. Qed.
+
+Lemma clean_up_nopend C p m :
+  no_leftovers p -> m_pending m = [] ->
+  match clean_up C p m with Completed m' => m_pending m' = [] | Stopped m' _ => m_pending m' = [] end.
+Proof.
+  intros (_ & _ & _ & F) P. unfold clean_up.
+  assert (F' : Forall (fun ks : nat * stage => s_leave (snd ks) = []) (rev (number_from 0 (i_cleanups p)))).
+  { apply Forall_rev. apply (number_from_Forall (fun st => s_leave st = [])). exact F. }
+  generalize (run_cleanups_nopend C _ None m F' P).
+  destruct (run_cleanups C (rev (number_from 0 (i_cleanups p))) None m); intro Q;
+    [rewrite note_pending|]; exact Q.
+Qed.
+
+Lemma run_deferred_nopend C p :
+  no_leftovers p ->
+  match run_deferred C p with Completed m => m_pending m = [] | Stopped m _ => m_pending m = [] end.
+Proof.
+  intros N. pose proof N as (L1 & L2 & L3 & _). unfold run_deferred.
+  generalize (run_stage_nopend C id_setup (i_setup p) sim0 L1 eq_refl).
+  destruct (run_stage C id_setup (i_setup p) sim0) as [[x|] m1|m1]; intro P1; [| |exact P1].
+  - apply (clean_up_nopend C p _ N). rewrite note_pending. exact P1.
+  - generalize (run_stage_nopend C id_body (i_body p) m1 L2 P1).
+    destruct (run_stage C id_body (i_body p) m1) as [c2 m2|m2]; intro P2; [|exact P2].
+    assert (P2' : m_pending (note_failure c2 m2) = []) by (rewrite note_pending; exact P2).
+    generalize (run_stage_nopend C id_teardown (i_teardown p) _ L3 P2').
+    destruct (run_stage C id_teardown (i_teardown p) (note_failure c2 m2)) as [c3 m3|m3]; intro P3; [|exact P3].
+    apply (clean_up_nopend C p _ N). rewrite note_pending. exact P3.
+Qed.
+
+Lemma junk_of_nil p m : m_pending m = [] -> junk_of p m = [].
+Proof. intro P. unfold junk_of. rewrite P. destruct (iterations p); reflexivity. Qed.
+
+Lemma no_leftovers_unrun p : no_leftovers p -> o_unrun (model p) = 0.
+Proof.
+  intro N. unfold model, run. cbn [o_unrun].
+  generalize (run_deferred_nopend (cut_instant p) p N).
+  destruct (run_deferred (cut_instant p) p) as [m|m n]; intro P; rewrite finish_unrun, junk_of_nil;
+    try reflexivity; [exact P|].
+  unfold after_cut. cbn [m_pending]. rewrite P. reflexivity.
+Qed.
+
+(* then success is decided by the program text and the timing alone *)
+Lemma success_iff_no_leftovers p :
+  no_leftovers p ->
+  (In AddSuccess (o_events (model p)) <-> completed p = true /\ all_clean p = true).
+Proof.
+  intro N. rewrite success_iff, (no_leftovers_unrun p N). tauto.
 Qed.
